@@ -631,11 +631,17 @@ pub fn wellformed_renderings(rng: &mut Rng, fmt: &str, p: &Value) -> Vec<Vec<u8>
         }
         out
     };
-    let mut v = vec![render(&|_| false, true), render(&|_| false, false), render(&|_| true, true), render(&|_| true, false)];
+    // an empty last line cannot drop its terminator (the line would vanish)
+    let last_empty = lines.last().map(|l| l.is_empty()).unwrap_or(true);
+    let mut v = if last_empty {
+        vec![render(&|_| false, true), render(&|_| true, true)]
+    } else {
+        vec![render(&|_| false, true), render(&|_| false, false), render(&|_| true, true), render(&|_| true, false)]
+    };
     if fmt == "fasta" {
         for _ in 0..2 {
             let mask = rng.next();
-            let fin = rng.chance(1, 2);
+            let fin = last_empty || rng.chance(1, 2);
             v.push(render(&|i| (mask >> (i % 60)) & 1 == 1, fin));
         }
     }
